@@ -67,6 +67,13 @@ def fixed_battery() -> List[Tuple[str, Any]]:
         ("WorkspaceEdit", {"documentChanges": [{"kind": "create", "uri": "u"}, {"textDocument": {"uri": "u", "version": None}, "edits": [{"range": rng, "newText": "", "annotationId": "a"}]}]}),
         ("SelectionRange", {"range": rng, "parent": {"range": rng}}),
         ("ParameterInformation", {"label": [1, 2]}),
+        ("WorkspaceSymbolResponse", {"jsonrpc": "2.0", "id": 3, "result": [{"name": "n", "kind": 1, "location": {"uri": "u"}}]}),
+        ("WorkspaceSymbolResponse", {"jsonrpc": "2.0", "id": 3, "result": [
+            {"name": "a", "kind": 1, "location": {"uri": "u", "range": rng}}, {"name": "b", "kind": 2, "location": {"uri": "u"}}]}),
+        ("DocumentSymbolResponse", {"jsonrpc": "2.0", "id": 4, "result": [{"name": "n", "kind": 1, "location": {"uri": "u", "range": rng}}]}),
+        ("DefinitionResponse", {"jsonrpc": "2.0", "id": 5, "result": [{"targetUri": "u", "targetRange": rng, "targetSelectionRange": rng}]}),
+        ("TextDocumentEdit", {"textDocument": {"uri": "u", "version": 1}, "edits": [{"range": rng, "snippet": {"kind": "snippet", "value": "v"}, "annotationId": "a"}]}),
+        ("TextDocumentRegistrationOptions", {"documentSelector": [{"notebook": "nb", "language": "py"}, {"scheme": "file"}, {"pattern": "*"}]}),
         # rejected inputs
         ("Position", {"line": -1, "character": 0}),
         ("Position", {"line": 1}),
@@ -406,7 +413,18 @@ def _work_hist(args) -> dict:
     model = Model(load_doc(repo_path("generator", "lsp.json")))
     objects = tvgen.Objects(model)
     roots = [("struct", n) for n in model.structs]
+    for kind_, msg_ in model.messages():   # message envelopes reach the result/params hooks
+        roots.append(("msg", kind_, msg_["method"]))
+        if kind_ == "request":
+            roots.append(("msg", "response", msg_["method"]))
     fixed = fixed_battery()
+
+    def type_name(root: tuple) -> str:
+        if root[0] == "struct":
+            return root[1]
+        kind_, msg_ = objects.message(root[2])
+        req, resp = model.message_class_names(kind_, msg_)
+        return resp if root[1] == "response" else req
 
     class Hist(RuleBasedStateMachine):
         def __init__(self):
@@ -428,7 +446,7 @@ def _work_hist(args) -> dict:
                 j = dict(j)
                 j.pop(sorted(j)[0])
             self.n_inputs += 1
-            self.ops.append(["add_input", root[1], j])
+            self.ops.append(["add_input", type_name(root), j])
 
         @precondition(lambda self: any(o[0] == "create" for o in self.ops))
         @rule(ci=st.integers(0, 100), bi=st.integers(0, 1000))
